@@ -470,7 +470,12 @@ pub fn check_head(c: &HeadCase, eff: &Effective, head: &[u8]) -> Result<ReqHead,
     // the statements name what must NOT be inherited (cookie, content-length, authorization unless kept); they do not promise
     // that everything else is: a client may drop headers that describe the previous request or its body, so for those names
     // (and only after a redirect) a subsequence is accepted.
-    const REQUEST_SPECIFIC: [&str; 12] = ["expect", "te", "transfer-encoding", "content-type", "content-encoding", "content-language", "referer", "origin", "if-none-match", "if-match", "if-modified-since", "range"];
+    // `authorization` is in the list because C13 is an "only if": a client that forwards credentials in fewer situations than
+    // allowed (e.g. not across an http -> https upgrade) keeps every statement; that it is absent where forbidden is part of `eff`.
+    const REQUEST_SPECIFIC: [&str; 14] = [
+        "expect", "te", "transfer-encoding", "content-type", "content-encoding", "content-language", "content-location", "referer", "origin", "if-none-match", "if-match",
+        "if-modified-since", "range", "authorization",
+    ];
     let rest = &fields[c.added.len()..];
     let redirected = !c.hops.is_empty();
     let mut names: Vec<String> = eff.inherited.iter().map(|(k, _)| k.to_ascii_lowercase()).collect();
